@@ -53,25 +53,155 @@ def dict_out(d):
     return [[py(k), int(v)] for k, v in d.items()]
 
 
-def run_vocab(case):
+class _Stop(Exception):
+    """raised by the probe subclass below once the vocabulary attributes are set"""
+
+
+_NCV = []
+
+
+def ngram_cooc_class():
+    """NgramCooccurrenceVectorizer whose fit stops right after _set_row_information (= _process_n_grams): the
+    library's own fit code runs unchanged up to and including both vocabulary stages; the co-occurrence kernels
+    (a fresh numba compilation per estimator, ~3 s) are not built.  entry "ngramcooc_fit" runs the whole fit."""
+    if not _NCV:
+        from vectorizers import NgramCooccurrenceVectorizer
+
+        class NgramCooccurrenceVocabularyProbe(NgramCooccurrenceVectorizer):
+            def _set_additional_params(self, token_sequences):
+                raise _Stop()
+
+        _NCV.append(NgramCooccurrenceVocabularyProbe)
+    return _NCV[0]
+
+
+EXCL_TYPES = {"set": set, "list": list, "frozenset": frozenset}
+ESTIMATOR_ENTRIES = ("cooc", "ngram1", "ngram2", "skipgram", "ngramcooc", "ngramcooc_fit")
+
+
+def make_params(case):
+    """The parameter OBJECTS of a case, built once: a history passes the very same objects to every call."""
     cfg = case["cfg"]
-    docs = case["docs"]
-    entry = case["entry"]
-    excluded = None if cfg["excluded"] is None else set(cfg["excluded"])
+    excluded = None if cfg["excluded"] is None else EXCL_TYPES[case.get("excl_type", "set")](cfg["excluded"])
     given = None if case.get("dict") is None else {k: v for k, v in case["dict"]}
-    mask = case.get("mask")
-    if case.get("shuffle_seed") is not None:
-        r = random.Random(case["shuffle_seed"])
-        docs = [list(d) for d in docs]
-        r.shuffle(docs)
-        for d in docs:
-            r.shuffle(d)
+    return {"excluded": excluded, "given": given}
+
+
+def frozen(x):
+    """A value snapshot of a parameter object that exposes every change a caller could observe: type, content and
+    (for ordered containers) order."""
+    if isinstance(x, dict):
+        return ("dict", [(frozen(k), frozen(v)) for k, v in x.items()])
+    if isinstance(x, (set, frozenset)):
+        return (type(x).__name__, sorted((frozen(e) for e in x), key=repr))
+    if isinstance(x, (list, tuple)):
+        return (type(x).__name__, [frozen(e) for e in x])
+    if isinstance(x, np.ndarray):
+        return ("ndarray", str(x.dtype), x.shape, x.tobytes())
+    return (type(x).__name__, repr(x))
+
+
+def snapshot(objs, est):
+    snap = {k: frozen(v) for k, v in objs.items()}
+    if est is not None:
+        # the constructor parameters as stored on the estimator (get_params() itself raises AttributeError on the
+        # co-occurrence vectorizers: coo_initial_memory is not stored under its own name)
+        import inspect
+        for k in inspect.signature(type(est).__init__).parameters:
+            if k != "self" and hasattr(est, k):
+                snap["param:" + k] = frozen(getattr(est, k))
+    return snap
+
+
+def param_change(before, after):
+    ch = ["%s: %r -> %r" % (k, before[k], after.get(k)) for k in before if before[k] != after.get(k)]
+    return "; ".join(ch)[:600] if ch else None
+
+
+def shuffled(case, docs):
+    if case.get("shuffle_seed") is None:
+        return docs
+    r = random.Random(case["shuffle_seed"])
+    docs = [list(d) for d in docs]
+    r.shuffle(docs)
+    for d in docs:
+        r.shuffle(d)
+    return docs
+
+
+def build_estimator(case, objs):
+    cfg, entry = case["cfg"], case["entry"]
+    excluded, given, mask = objs["excluded"], objs["given"], case.get("mask")
+    if entry == "cooc":
+        from vectorizers import TokenCooccurrenceVectorizer
+        return TokenCooccurrenceVectorizer(token_dictionary=given, excluded_tokens=excluded,
+                                           excluded_token_regex=cfg["regex"], mask_string=mask, window_radii=1,
+                                           **cfg_kwargs(cfg))
+    if entry in ("ngram1", "ngram2"):
+        from vectorizers import NgramVectorizer
+        n = case.get("ngram", {}).get("n", 1)
+        beh = case.get("ngram", {}).get("behaviour", "exact")
+        return NgramVectorizer(ngram_size=n, ngram_behaviour=beh, token_dictionary=given, excluded_tokens=excluded,
+                               excluded_token_regex=cfg["regex"], mask_string=mask, **cfg_kwargs(cfg))
+    if entry == "skipgram":
+        from vectorizers import SkipgramVectorizer
+        return SkipgramVectorizer(token_dictionary=given, ignored_tokens=excluded, excluded_token_regex=cfg["regex"],
+                                  window_radius=1, **cfg_kwargs(cfg))
+    if entry in ("ngramcooc", "ngramcooc_fit"):
+        from vectorizers import NgramCooccurrenceVectorizer
+        cls = ngram_cooc_class() if entry == "ngramcooc" else NgramCooccurrenceVectorizer
+        return cls(token_dictionary=given, excluded_tokens=excluded, excluded_token_regex=cfg["regex"],
+                   mask_string=mask, window_radii=1, ngram_size=case["ngram"]["n"], **cfg_kwargs(cfg))
+    raise ValueError("unknown estimator entry " + entry)
+
+
+def fit_estimator(case, v, docs):
+    entry = case["entry"]
+    if entry == "cooc":
+        v.fit(docs)
+        return {"dict": dict_out(v.token_label_dictionary_), "freq": [key32(x) for x in v._token_frequencies_]}
+    if entry in ("ngram1", "ngram2"):
+        v.fit(docs)
+        out = {"dict": dict_out(v._token_dictionary_), "freq": [key32(x) for x in v._token_frequencies_]}
+        out["columns"] = dict_out(v.column_label_dictionary_)
+        return out
+    if entry == "skipgram":
+        v.fit(docs)
+        return {"dict": dict_out(v._token_dictionary_), "freq": [key32(x) for x in v._token_frequencies_]}
+    if entry in ("ngramcooc", "ngramcooc_fit"):
+        try:
+            v.fit(docs)
+        except _Stop:
+            pass
+        inv = v.token_index_dictionary_
+        return {"dict": dict_out(v.token_label_dictionary_), "freq": [key32(x) for x in v._token_frequencies_],
+                "columns": [[[py(inv[int(i)]) for i in g], int(j)] for g, j in v._raw_ngram_dictionary_.items()]}
+    raise ValueError("unknown estimator entry " + entry)
+
+
+def call_function(case, docs, objs):
+    cfg, entry = case["cfg"], case["entry"]
+    excluded, given, mask = objs["excluded"], objs["given"], case.get("mask")
     if entry == "preprocess":
         seqs, d, inv, fr = P.preprocess_token_sequences(
             docs, token_dictionary=given, ignored_tokens=excluded, excluded_token_regex=cfg["regex"],
             masking=mask, **cfg_kwargs(cfg))
         return {"dict": dict_out(d), "freq": [key32(x) for x in fr], "freq_dtype": str(fr.dtype),
                 "seqs": [[int(x) for x in s] for s in seqs]}
+    if entry == "prune":
+        # prune_token_dictionary called directly, on the tables preprocess_token_sequences would hand it
+        flat = [t for d in docs for t in d]
+        d0, tf, n = P.construct_token_dictionary_and_frequency(flat, None)
+        need = any(cfg[b] is not None for b in ("min_dococc", "max_dococc", "min_docfreq", "max_docfreq", "max_unique"))
+        df = P.construct_document_frequency(docs, d0) if need else np.array([])
+        before = frozen([d0, tf, df])
+        d, fr = P.prune_token_dictionary(d0, tf, token_doc_frequencies=df, ignored_tokens=excluded,
+                                         excluded_token_regex=cfg["regex"], total_tokens=n, total_documents=len(docs),
+                                         **cfg_kwargs(cfg))
+        out = {"dict": dict_out(d), "freq": [key32(x) for x in fr]}
+        if frozen([d0, tf, df]) != before:
+            out["param_change"] = "prune_token_dictionary changed its token_dictionary / frequency arguments"
+        return out
     if entry == "timed":
         tdocs = [[(t, float(i)) for i, t in enumerate(doc)] for doc in docs]
         seqs, d, inv, fr = P.preprocess_timed_token_sequences(
@@ -97,24 +227,39 @@ def run_vocab(case):
         if mask is not None:
             out["labels"] = [[py(x) for x in lab] for _, lab in res]
         return out
-    if entry == "cooc":
-        from vectorizers import TokenCooccurrenceVectorizer
-        v = TokenCooccurrenceVectorizer(token_dictionary=given, excluded_tokens=excluded,
-                                        excluded_token_regex=cfg["regex"], mask_string=mask, window_radii=1,
-                                        **cfg_kwargs(cfg))
-        v.fit(docs)
-        return {"dict": dict_out(v.token_label_dictionary_), "freq": [key32(x) for x in v._token_frequencies_]}
-    if entry in ("ngram1", "ngram2"):
-        from vectorizers import NgramVectorizer
-        n = case.get("ngram", {}).get("n", 1)
-        beh = case.get("ngram", {}).get("behaviour", "exact")
-        v = NgramVectorizer(ngram_size=n, ngram_behaviour=beh, token_dictionary=given, excluded_tokens=excluded,
-                            excluded_token_regex=cfg["regex"], mask_string=mask, **cfg_kwargs(cfg))
-        v.fit(docs)
-        out = {"dict": dict_out(v._token_dictionary_), "freq": [key32(x) for x in v._token_frequencies_]}
-        out["columns"] = dict_out(v.column_label_dictionary_)
-        return out
     raise ValueError("unknown entry " + entry)
+
+
+def run_step(case, step, objs, est):
+    """One call (a fit / a preprocess_* call) of a case on the documents of [step], with the parameter objects
+    [objs] (and the estimator [est] when one is shared); the parameter objects are compared with a snapshot taken
+    just before the call."""
+    sub = dict(case)
+    sub.update(step)
+    docs = shuffled(sub, sub["docs"])
+    before = snapshot(objs, est)
+    try:
+        if sub["entry"] in ESTIMATOR_ENTRIES:
+            v = est if est is not None else build_estimator(sub, objs)
+            out = fit_estimator(sub, v, docs)
+        else:
+            out = call_function(sub, docs, objs)
+    except Exception as e:
+        out = {"err": type(e).__name__, "msg": str(e)[:300], "tb": traceback.format_exc()[-600:]}
+    ch = param_change(before, snapshot(objs, est))
+    if ch:
+        out["param_change"] = ch
+    return out
+
+
+def run_case(case):
+    objs = make_params(case)
+    if case["kind"] != "history":
+        return run_step(case, {}, objs, None)
+    est = None
+    if case.get("share") == "estimator":
+        est = build_estimator(case, objs)
+    return {"steps": [run_step(case, st, objs, est) for st in case["steps"]]}
 
 
 def sweep(T, T0):
@@ -177,7 +322,7 @@ def main():
     res = []
     for c in payload["cases"]:
         try:
-            res.append(run_vocab(c))
+            res.append(run_case(c))
         except Exception as e:
             res.append({"err": type(e).__name__, "msg": str(e)[:300], "tb": traceback.format_exc()[-600:]})
         if len(res) % 100 == 0:
